@@ -46,6 +46,7 @@ type Cfg struct {
 	Ext      *string  `json:"ext"`
 	Update   *bool    `json:"update"`
 	JSON     *JSONCfg `json:"json"`
+	House    string   `json:"house,omitempty"`
 }
 
 type JSONCfg struct {
@@ -329,13 +330,39 @@ func Load() (*Interp, error) {
 		return nil, err
 	}
 	in := &Interp{S: s, tr: &tracer{f: f}, cfgs: map[string]*snaps.Config{}, exec: map[string]int{}}
-	for name, c := range s.Configs {
-		in.cfgs[name] = buildCfg(c)
+	// option values shared between Configs ("house" options) are created once
+	house := map[string][]func(*snaps.Config){}
+	names := make([]string, 0, len(s.Configs))
+	for name := range s.Configs {
+		names = append(names, name)
+	}
+	sort.Strings(names)
+	for _, name := range names {
+		if h := s.Configs[name].House; h != "" && house[h] == nil {
+			house[h] = cfgOpts(s.Configs[h])
+		}
+	}
+	for _, name := range names {
+		c := s.Configs[name]
+		switch {
+		case c.House != "":
+			opts := append([]func(*snaps.Config){}, house[c.House]...)
+			if c.JSON != nil {
+				opts = append(opts, snaps.JSON(snaps.JSONConfig{Width: c.JSON.Width, Indent: c.JSON.Indent, SortKeys: c.JSON.SortKeys}))
+			}
+			in.cfgs[name] = snaps.WithConfig(opts...)
+		case house[name] != nil:
+			in.cfgs[name] = snaps.WithConfig(house[name]...)
+		default:
+			in.cfgs[name] = buildCfg(c)
+		}
 	}
 	return in, nil
 }
 
-func buildCfg(c *Cfg) *snaps.Config {
+func buildCfg(c *Cfg) *snaps.Config { return snaps.WithConfig(cfgOpts(c)...) }
+
+func cfgOpts(c *Cfg) []func(*snaps.Config) {
 	var opts []func(*snaps.Config)
 	if c.Dir != nil {
 		opts = append(opts, snaps.Dir(*c.Dir))
@@ -352,7 +379,7 @@ func buildCfg(c *Cfg) *snaps.Config {
 	if c.JSON != nil {
 		opts = append(opts, snaps.JSON(snaps.JSONConfig{Width: c.JSON.Width, Indent: c.JSON.Indent, SortKeys: c.JSON.SortKeys}))
 	}
-	return snaps.WithConfig(opts...)
+	return opts
 }
 
 func (in *Interp) Close() { in.tr.f.Close() }
